@@ -28,8 +28,8 @@ pub fn run(ctx: &Ctx, fmt: Fmt) -> i32 {
         Ok(())
     });
     rep.absorb(r);
-    if fmt == Fmt::F32 && rep.violations.is_empty() {
-        f32_boundary_sweep(ctx, &mut rep);
+    if rep.violations.is_empty() {
+        boundary_sweep(ctx, &mut rep, fmt);
     }
     rep.extra.insert("configurations".into(), serde_json::json!(cfgs.iter().map(|c| c.name).collect::<Vec<_>>()));
     rep.extra.insert("format".into(), serde_json::json!(fmt.name()));
@@ -48,20 +48,45 @@ pub fn run(ctx: &Ctx, fmt: Fmt) -> i32 {
 /// the last place)||9 (-> lower neighbour); expectation by construction from
 /// the exact expansion of H (own Nat), cross-checked by the oracle on a sample.
 /// Quick: a seed-chosen residue class; thorough: all of them.
-fn f32_boundary_sweep(ctx: &Ctx, rep: &mut Report) {
+///
+/// For f64 the boundaries cannot be enumerated; instead a structured grid is: every one of the 2047
+/// exponent fields (incl. subnormals) x fractions {0, 1, 2, all-ones, all-ones-1, every single-one,
+/// single-zero, low-run and high-run pattern, 256 seed-derived random ones} (~470 patterns), i.e. about
+/// 960 000 boundaries x 3 inputs; a 1/16 class in quick, all of it in thorough.
+fn boundary_sweep(ctx: &Ctx, rep: &mut Report, fmt: Fmt) {
     use crate::oracle::{self, Verdict};
     use crate::runner::{run_sweep, Failure};
-    let total = Fmt::F32.inf_bits(); // x in [0, inf): boundary above x
-    let stride: u64 = match ctx.tier {
-        Tier::Quick => 512,
-        Tier::Thorough => 1,
+    let mb = fmt.mbits();
+    let fracs: Vec<u64> = if fmt == Fmt::F64 {
+        let all = (1u64 << mb) - 1;
+        let mut f = vec![0, 1, 2, all, all - 1];
+        for j in 0..mb {
+            f.extend([1u64 << j, all ^ (1u64 << j), (1u64 << j) - 1, all ^ ((1u64 << j) - 1)]);
+        }
+        let mut s = ctx.seed ^ 0xf64;
+        for _ in 0..256 {
+            s = gen::mix(s);
+            f.push(s & all);
+        }
+        f.sort_unstable();
+        f.dedup();
+        f
+    } else {
+        Vec::new()
+    };
+    let total = if fmt == Fmt::F32 { Fmt::F32.inf_bits() } else { fracs.len() as u64 * 2047 }; // x in [0, inf): boundary above x
+    let stride: u64 = match (ctx.tier, fmt) {
+        (Tier::Quick, Fmt::F32) => 512,
+        (Tier::Quick, Fmt::F64) => 16,
+        (Tier::Thorough, _) => 1,
     };
     let off = ctx.seed % stride;
     let count = (total - off + stride - 1) / stride;
     let cfg_all = all_cfgs();
     let r = run_sweep(count, ctx.threads, |i, stats| {
-        let x = off + i * stride;
-        let h = oracle::hi(Fmt::F32, x);
+        let idx = off + i * stride;
+        let x = if fmt == Fmt::F32 { idx } else { ((idx / fracs.len() as u64) << mb) | fracs[(idx % fracs.len() as u64) as usize] };
+        let h = oracle::hi(fmt, x);
         let mut digits: Vec<u8> = h.digits.iter().map(|d| d + b'0').collect();
         // an integer-valued boundary: restore its trailing zeros so that appended digits are fractional
         while (digits.len() as i64) < h.point {
@@ -88,30 +113,31 @@ fn f32_boundary_sweep(ctx: &Ctx, rep: &mut Report) {
             let frac_layout = (i / 3) % 2 == 1 && *d.last().unwrap() != b'0';
             let (int, frac, exp): (&[u8], &[u8], i32) = if frac_layout { (&[], d, (e + d.len() as i64) as i32) } else { (d, &[], e as i32) };
             for cfg in cfgs {
-                let got = crate::runner::catch(|| cfg.parse(Fmt::F32, int, frac, exp));
+                let got = crate::runner::catch(|| cfg.parse(fmt, int, frac, exp));
                 if got != Ok(want) {
                     return Err(Failure::violation(
-                        format!("f32 boundary above {}: {} input parsed as {:?} in config {}, expected {}", Fmt::F32.hex(x), kind, got.as_ref().map(|b| Fmt::F32.hex(*b)), cfg.name, Fmt::F32.hex(want)),
-                        format!("misround:{}:f32:boundary-{}", if cfg.compact { "compact" } else { "lemire" }, kind),
-                        super::common::raw_detail(Fmt::F32, cfg.name, int, frac, exp, serde_json::json!({"boundary_above": Fmt::F32.hex(x), "kind": kind, "expected_bits": Fmt::F32.hex(want)})),
+                        format!("{} boundary above {}: {} input parsed as {:?} in config {}, expected {}", fmt.name(), fmt.hex(x), kind, got.as_ref().map(|b| fmt.hex(*b)), cfg.name, fmt.hex(want)),
+                        format!("misround:{}:{}:boundary-{}", if cfg.compact { "compact" } else { "lemire" }, fmt.name(), kind),
+                        super::common::raw_detail(fmt, cfg.name, int, frac, exp, serde_json::json!({"boundary_above": fmt.hex(x), "kind": kind, "expected_bits": fmt.hex(want)})),
                     ));
                 }
             }
-            if i % 4096 == 0 && oracle::judge(Fmt::F32, want, int, frac, exp as i64) != Verdict::Correct {
+            if i % (if fmt == Fmt::F32 { 4096 } else { 64 }) == 0 && oracle::judge(fmt, want, int, frac, exp as i64) != Verdict::Correct {
                 return Err(Failure::harness("boundary sweep: by-construction expectation disagrees with the oracle".into(), serde_json::json!({"x": x, "kind": kind})));
             }
         }
-        if i % 1_000_003 == 0 {
-            stats.sample("f32 boundary sweep", || serde_json::json!({"boundary_above_bits": Fmt::F32.hex(x), "digits": digits.len(), "exponent10": e10}));
+        if i % (if fmt == Fmt::F32 { 1_000_003 } else { 10_007 }) == 0 {
+            stats.sample(&format!("{} boundary sweep", fmt.name()), || serde_json::json!({"boundary_above_bits": fmt.hex(x), "digits": digits.len(), "exponent10": e10}));
         }
         Ok(())
     });
     let n = r.stats.evaluations;
     rep.absorb(r);
-    rep.stats.add("f32-boundaries-swept", n);
+    rep.stats.add(&format!("{}-boundaries-swept", fmt.name()), n);
     rep.extra.insert(
-        "f32_boundary_sweep".into(),
-        serde_json::json!({"boundaries_total": total, "stride": stride, "offset": off, "swept": n, "inputs_per_boundary": 3, "complete": stride == 1,
+        format!("{}_boundary_sweep", fmt.name()),
+        serde_json::json!({"boundaries_total": total, "stride": stride, "offset": off, "swept": n, "inputs_per_boundary": 3, "complete": stride == 1 && fmt == Fmt::F32,
+                           "domain": if fmt == Fmt::F32 { "every boundary between adjacent non-negative f32 values" } else { "structured grid: 2047 exponent fields x ~470 fraction patterns" },
                            "configs": "default+compact for every boundary, all 8 for every 16th"}),
     );
     // every swept boundary is a distinct non-trivial case by construction (enumeration index)
